@@ -560,9 +560,7 @@ func (c *c06) Step(w *sim.World, s *sim.Step) *Viol {
 			if exp != got {
 				return viol("C06", s.Idx, "DepositForBurn event vs request", exp, got)
 			}
-			if tok == strings.ToLower(tok) {
-				c.origTok[n] = ev.BurnToken
-			}
+			c.origTok[n] = ev.BurnToken
 			c.deps++
 			c.note(true, 132, hexs(sm.Bytes))
 		case *types.MsgReplaceMessage:
